@@ -1,0 +1,7 @@
+//go:build verif
+
+package transaction
+
+// VerifIntToKey exposes intToKey (index -> trie key of a transaction list)
+// to the /verif correspondence harness. Add-only hook.
+func VerifIntToKey(i int) []byte { return intToKey(i) }
